@@ -48,7 +48,7 @@ check('C11', 'specs/RoutingTable.tla + specs/RoutingTableTrace.tla + harness/c11
       'interleaved with other table calls inside one probe (the protocol serialises them).',
       'TLC exhaustive model + TLC trace validation of real routing-table histories', 'DESIGN.md 5/C11')
 
-check('C01', 'specs/BlobWrite.tla + specs/BlobWriteTrace.tla + harness/c01_blob.py',
+check('C01', 'specs/BlobWrite.tla + specs/BlobWriteTrace.tla + specs/BlobBufferTrace.tla + specs/BlobWriteReplay.tla + harness/c01_blob.py',
       'Leg A: TLC explores BlobWrite.tla - up to 3 concurrent HashBlobWriters on one blob, every declared length (right, short, '
       'long), every chunking and good/bad unit, the asyncio ready queue as an explicit FIFO (close_handle / remove_writer / '
       'writer_finished_callback, the save task, executor completion, update_events, completed callback), optionally bare-API '
